@@ -23,6 +23,32 @@ import (
 )
 
 // Process the join request. Returns false if it failed.
+// joinRequestSize is the size of a JoinRequest message [6.2.4]:
+// MHDR | AppEUI | DevEUI | DevNonce | MIC
+const joinRequestSize = 23
+
+// verifyJoinRequestMIC checks that the MIC of the received JoinRequest is
+// valid for the AppKey of the device it names [6.2.4].
+func (d *Decrypter) verifyJoinRequestMIC(decoded server.LoRaMessage) bool {
+	rawMessage := decoded.FrameContext.GatewayContext.RawMessage
+	if len(rawMessage) != joinRequestSize {
+		lg.Info("JoinRequest with invalid size (%d bytes). Ignoring it.", len(rawMessage))
+		return false
+	}
+	joinRequest := &decoded.Payload.JoinRequestPayload
+	device, err := d.context.Storage.GetDeviceByEUI(joinRequest.DevEUI)
+	if err != nil {
+		lg.Info("Unknown device attempting JoinRequest: %s", joinRequest.DevEUI)
+		return false
+	}
+	mic, err := decoded.Payload.CalculateJoinRequestMIC(device.AppKey, rawMessage[0:len(rawMessage)-4])
+	if err != nil || mic != decoded.Payload.MIC {
+		lg.Info("MIC validation failed for JoinRequest from device with EUI %s", joinRequest.DevEUI)
+		return false
+	}
+	return true
+}
+
 func (d *Decrypter) processJoinRequest(decoded server.LoRaMessage) bool {
 	joinRequest := &decoded.Payload.JoinRequestPayload
 
